@@ -19,7 +19,7 @@ import (
 
 var (
 	hdrKeys    = []string{"X-A", "X-B", "X-C", "Accept", "Content-Type"}
-	hdrVals    = []string{"v1", "v2", "text/plain", "application/json", "w3"}
+	hdrVals    = []string{"v1", "v2", "text/plain", "application/json", "w3", "application/xml"}
 	cookieKeys = []string{"a", "b", "c", "sid"}
 	formKeys   = []string{"f", "g", "k", "z1"}
 	queryKeys  = []string{"p", "q", "r", "a0"}
@@ -193,8 +193,10 @@ func genProgram(r *hk.Rand) *program {
 		sh.BodyKind = "bytes"
 	case k < 60:
 		sh.BodyKind = "string"
-	case k < 72:
+	case k < 66:
 		sh.BodyKind = "func"
+	case k < 72:
+		sh.BodyKind = "marshal"
 	case k < 80:
 		sh.BodyKind = "reader"
 	case k < 86:
@@ -448,6 +450,11 @@ func coqCase(p *program, o *observation) (string, bool) {
 	}
 	client := fmt.Sprintf("(mkClient %s %s %s %s %s %s)", coqAmap(sh.CHeaders), coqCookies(sh.CCookies), coqAmap(sh.CForm), coqAmap(sh.CQuery), hk.CoqBool(!sh.DenyGetPay), coqCookies(sh.CPParams))
 	body, gb, reader, unrep := "None", "GBNil", "[]", "false"
+	marshal := "None"
+	if sh.BodyKind == "marshal" {
+		js, xm := marshalRenderings(sh.Body)
+		marshal = "(Some " + hk.CoqPair(hk.CoqStr(js), hk.CoqStr(xm)) + ")"
+	}
 	switch sh.BodyKind {
 	case "bytes", "string":
 		body, gb = "(Some "+hk.CoqStr(sh.Body)+")", "(GBStatic "+hk.CoqStr(sh.Body)+")"
@@ -456,8 +463,8 @@ func coqCase(p *program, o *observation) (string, bool) {
 	case "reader", "readcloser":
 		gb, reader, unrep = "GBReader", hk.CoqStr(sh.Body), "true"
 	}
-	rs := fmt.Sprintf("(mkR %s %s %s %s %s %s %s %s %s %s 0%%Z %s %s %s)", hk.CoqStr(sh.Method), hk.CoqStr(sh.RawQuery), coqAmap(sh.RHeaders), coqCookies(sh.RCookies),
-		coqAmap(sh.RForm), coqAmap(sh.RQuery), body, gb, reader, unrep, hk.CoqStr(sh.path()), coqCookies(sh.RPParams), coqCookies(sh.Ordered))
+	rs := fmt.Sprintf("(mkR %s %s %s %s %s %s %s %s %s %s 0%%Z %s %s %s %s)", hk.CoqStr(sh.Method), hk.CoqStr(sh.RawQuery), coqAmap(sh.RHeaders), coqCookies(sh.RCookies),
+		coqAmap(sh.RForm), coqAmap(sh.RQuery), body, gb, reader, unrep, hk.CoqStr(sh.path()), coqCookies(sh.RPParams), coqCookies(sh.Ordered), marshal)
 	var script []string
 	for k, oc := range p.Script {
 		var out string
